@@ -476,6 +476,13 @@ func appendSlice(expr ast.Expr, lhsV reflect.Value, rhsV reflect.Value) (reflect
 	return reflect.AppendSlice(lhsV, converted), nil
 }
 
+// sliceOfArray returns a new slice holding the elements of the array v
+func sliceOfArray(v reflect.Value) reflect.Value {
+	s := reflect.MakeSlice(reflect.SliceOf(v.Type().Elem()), v.Len(), v.Len())
+	reflect.Copy(s, v)
+	return s
+}
+
 // convertSliceElements converts the elements of rhsV into a new slice of type lhsSliceT
 func convertSliceElements(expr ast.Expr, lhsSliceT reflect.Type, rhsV reflect.Value) (reflect.Value, error) {
 	if lhsSliceT.Kind() == reflect.Array {
